@@ -1,7 +1,8 @@
 import Qentem.Proofs.TmplGen
 import Qentem.Proofs.TmplIifRender
+import Qentem.Proofs.TmplSvarRender
 /-!
-# C02 stage 7/8 — rendering trees against the reference interpreter
+# C02 stage 7/8/9 — rendering trees against the reference interpreter
 -/
 set_option linter.unusedSectionVars false
 set_option linter.unusedVariables false
@@ -34,6 +35,7 @@ def GT.pathV (rn : List Nat → Option (Num R)) : List (List Nat) → GT → Pro
   | Vs, .ifc e body tail => (varsOkV rn Vs e 34 ∧ e.length < 65536) ∧ GTs.pathV rn Vs body ∧ GTail.pathV rn Vs tail
   | Vs, .loop S V body => (S ≠ [] → PathOkV Vs S) ∧ GTs.pathV rn (V :: Vs) body
   | Vs, .iif e ts fs => (varsOkV rn Vs e 34 ∧ e.length < 65536) ∧ ValPath rn Vs ts ∧ ValPath rn Vs fs
+  | Vs, .svar pa ar => PathOkV Vs pa ∧ (∀ V ∈ Vs, V.isPrefixOf pa = false) ∧ ∀ a ∈ ar, a.pathV rn Vs
 def GTs.pathV (rn : List Nat → Option (Num R)) : List (List Nat) → GTs → Prop
   | _, .nil => True
   | Vs, .cons b r => GT.pathV rn Vs b ∧ GTs.pathV rn Vs r
@@ -49,6 +51,7 @@ def GT.caseV (rn : List Nat → Option (Num R)) : GT → Prop
   | .ifc e body tail => (tail = .fin ∨ exprOk rn e) ∧ GTs.caseV rn body ∧ GTail.caseV rn tail
   | .loop _ _ body => GTs.caseV rn body
   | .iif _ _ _ => True
+  | .svar _ _ => True
 def GTs.caseV (rn : List Nat → Option (Num R)) : GTs → Prop
   | .nil => True
   | .cons b r => GT.caseV rn b ∧ GTs.caseV rn r
@@ -64,6 +67,7 @@ def rcostGT : GT → Nat
   | .ifc _ _ _ => 1
   | .loop _ _ _ => 1
   | .iif _ _ _ => 1
+  | .svar _ _ => 1
 def rcostGTs : GTs → Nat
   | .nil => 0
   | .cons b r => rcostGT b + rcostGTs r
@@ -80,6 +84,7 @@ def expGT (cx : RCtx R) : List Binding → GT → List Nat
   | sc, .ifc e body tail => if hitOfS cx sc e = true then expGTs cx sc body else expGTail cx sc tail
   | sc, .loop S V body => outEnts (fun x key => expGTs cx (⟨V, x, key⟩ :: sc) body) (entsO (collS cx sc S))
   | sc, .iif e ts fs => expIif cx sc e ts fs
+  | sc, .svar pa ar => expSvar cx sc pa ar
 def expGTs (cx : RCtx R) : List Binding → GTs → List Nat
   | _, .nil => []
   | sc, .cons b r => expGT cx sc b ++ expGTs cx sc r
@@ -98,6 +103,7 @@ def rneedGT (cx : RCtx R) : List Binding → GT → Nat
     (entsO (collS cx sc S)).length +
       sumEnts (fun x key => rneedGTs cx (⟨V, x, key⟩ :: sc) body) (entsO (collS cx sc S)) + rcostGTs body + 3
   | _, .iif _ ts fs => nTagsVal ts + nTagsVal fs + 3
+  | sc, .svar pa _ => svarNeed cx sc pa + 1
 def rneedGTs (cx : RCtx R) : List Binding → GTs → Nat
   | _, .nil => 1
   | sc, .cons b r => rneedGT cx sc b + rneedGTs cx sc r
@@ -374,6 +380,34 @@ theorem render_gt (cx : RCtx R) (cfg : ScanCfg R) (hg : cx.guardIndexRead = true
     simp only [tagsGT, rcostGT, List.cons_append, List.nil_append, render, hrt, bind, Except.bind]
     congr 1
     simp only [List.length_append]
+  | .svar pa ar, E, dep, more, endO, post, B, txt, st, fuel, hc, hok, hpath, _, hD, hit, _, _, hf => by
+    simp only [GT.ok] at hok
+    obtain ⟨_, _, _, _, hargs, _, _⟩ := hok
+    simp only [GT.pathV] at hpath
+    obtain ⟨hp, hnv, hpa⟩ := hpath
+    simp only [rneedGT] at hf
+    simp only [printGT] at hc
+    have hfind : findV (dOf E) pa = none := by
+      have : ∀ (D : List LoopD), (∀ d ∈ D, d.V.isPrefixOf pa = false) → findV D pa = none := by
+        intro D
+        induction D with
+        | nil => intro _; rfl
+        | cons d r ih =>
+          intro h
+          simp only [findV, h d (List.mem_cons_self ..), Bool.false_eq_true, if_false]
+          exact ih (fun x hx => h x (List.mem_cons_of_mem _ hx))
+      apply this
+      intro d hd
+      obtain ⟨e, he, rfl⟩ := List.mem_map.mp hd
+      exact hnv e.d.V (List.mem_map_of_mem he)
+    have hrt := renderSvar_env cx cfg hg hrn E hD B txt pa post ar hc hp hfind
+      (fun a ha => ⟨(hargs a ha).2, hpa a ha⟩) st hit fuel hf
+    refine ⟨B ++ txt ++ printSvar pa ar, [], emit (emit st txt) (expSvar cx (scOf E) pa ar),
+      by rw [hc]; simp [List.append_assoc], by simp [printGT, List.length_append]; omega,
+      by simp [emit, expGT, List.append_assoc], by simpa [emit] using hit, ?_⟩
+    simp only [tagsGT, rcostGT, List.cons_append, List.nil_append, render, hrt, bind, Except.bind]
+    congr 1
+    simp only [List.length_append]
 theorem render_gts (cx : RCtx R) (cfg : ScanCfg R) (hg : cx.guardIndexRead = true) (hrn : cfg.readNum = cx.readNum)
     (hn32 : cx.content.length < 4294967296) :
     ∀ (bs : GTs) (E : List EnvE) (dep : Nat) (more : List (Tag R)) (endO : Nat) (post B txt : List Nat) (st : RState)
@@ -486,35 +520,39 @@ end
 /-! ### the reference interpreter on a tree; top level -/
 
 theorem loopArr_gen (sx : SpecCtx R) (sc : List Binding) (V : List Nat) (bodyT : List Tpl)
-    (Eo : Doc → List Nat → List Nat) (Nf : Doc → List Nat → Nat)
-    (hbody : ∀ x key f, Nf x key ≤ f → expandList sx f (⟨V, x, key⟩ :: sc) bodyT = Eo x key) :
-    ∀ (xs : List Doc) (fuel : Nat), xs.length + sumEnts Nf (xs.map (fun x => ([], x))) + 1 ≤ fuel →
+    (Eo : Doc → List Nat → List Nat) (Nf : Doc → List Nat → Nat) :
+    ∀ (xs : List Doc) (fuel : Nat),
+      (∀ x ∈ xs, ∀ key f, Nf x key ≤ f → expandList sx f (⟨V, x, key⟩ :: sc) bodyT = Eo x key) →
+      xs.length + sumEnts Nf (xs.map (fun x => ([], x))) + 1 ≤ fuel →
       loopArr sx fuel sc V bodyT xs = outEnts Eo (xs.map (fun x => ([], x))) := by
   intro xs
   induction xs with
-  | nil => intro fuel _; cases fuel <;> simp [loopArr, outEnts]
+  | nil => intro fuel _ _; cases fuel <;> simp [loopArr, outEnts]
   | cons x xs ih =>
-    intro fuel hf
+    intro fuel hbody hf
     obtain ⟨g, rfl⟩ : ∃ g, fuel = g + 1 := ⟨fuel - 1, by omega⟩
     simp only [List.map_cons, sumEnts, List.length_cons] at hf
     simp only [loopArr, List.map_cons, outEnts]
-    rw [ih g (by omega), hbody x [] g (by omega)]
+    rw [ih g (fun y hy => hbody y (List.mem_cons_of_mem _ hy)) (by omega),
+      hbody x (List.mem_cons_self ..) [] g (by omega)]
 
 theorem loopObj_gen (sx : SpecCtx R) (sc : List Binding) (V : List Nat) (bodyT : List Tpl)
-    (Eo : Doc → List Nat → List Nat) (Nf : Doc → List Nat → Nat)
-    (hbody : ∀ x key f, Nf x key ≤ f → expandList sx f (⟨V, x, key⟩ :: sc) bodyT = Eo x key) :
-    ∀ (ms : List (List Nat × Doc)) (fuel : Nat), ms.length + sumEnts Nf ms + 1 ≤ fuel →
+    (Eo : Doc → List Nat → List Nat) (Nf : Doc → List Nat → Nat) :
+    ∀ (ms : List (List Nat × Doc)) (fuel : Nat),
+      (∀ kx ∈ ms, ∀ key f, Nf kx.2 key ≤ f → expandList sx f (⟨V, kx.2, key⟩ :: sc) bodyT = Eo kx.2 key) →
+      ms.length + sumEnts Nf ms + 1 ≤ fuel →
       loopObj sx fuel sc V bodyT ms = outEnts Eo ms := by
   intro ms
   induction ms with
-  | nil => intro fuel _; cases fuel <;> simp [loopObj, outEnts]
+  | nil => intro fuel _ _; cases fuel <;> simp [loopObj, outEnts]
   | cons kx ms ih =>
     obtain ⟨k, x⟩ := kx
-    intro fuel hf
+    intro fuel hbody hf
     obtain ⟨g, rfl⟩ : ∃ g, fuel = g + 1 := ⟨fuel - 1, by omega⟩
     simp only [sumEnts, List.length_cons] at hf
     simp only [loopObj, outEnts]
-    rw [ih g (by omega), hbody x k g (by omega)]
+    rw [ih g (fun y hy => hbody y (List.mem_cons_of_mem _ hy)) (by omega),
+      hbody (k, x) (List.mem_cons_self ..) k g (by show Nf x k ≤ g; omega)]
 
 mutual
 /-- reference fuel a tree needs under the bindings `sc` -/
@@ -525,6 +563,7 @@ def eneedGT (cx : RCtx R) : List Binding → GT → Nat
     (entsO (collS cx sc S)).length +
       sumEnts (fun x key => eneedGTs cx (⟨V, x, key⟩ :: sc) body) (entsO (collS cx sc S)) + 3
   | _, .iif _ ts fs => (match ts with | some l => l.length | none => 0) + (match fs with | some l => l.length | none => 0) + 3
+  | sc, .svar pa _ => svarNeed cx sc pa + 2
 def eneedGTs (cx : RCtx R) : List Binding → GTs → Nat
   | _, .nil => 1
   | sc, .cons b r => eneedGT cx sc b + (GT.toTpls b).length + eneedGTs cx sc r
@@ -535,41 +574,60 @@ def eneedGTail (cx : RCtx R) : List Binding → GTail → Nat
 end
 
 mutual
-theorem expand_gt (cx : RCtx R) : ∀ (b : GT) (sc : List Binding) (fuel : Nat), eneedGT cx sc b ≤ fuel →
+theorem expand_gt (cx : RCtx R) (hU : ∀ s, Reach cx.root (.str s) → ∀ x ∈ s, x < 2 ^ 32) :
+    ∀ (b : GT) (sc : List Binding) (fuel : Nat), b.ok → (∀ bd ∈ sc, Reach cx.root bd.item) → eneedGT cx sc b ≤ fuel →
     expandList (specOf cx) fuel sc b.toTpls = expGT cx sc b
-  | .segs l, sc, fuel, hf => by
+  | .segs l, sc, fuel, hok, hsc, hf => by
     simp only [eneedGT] at hf
     simp only [GT.toTpls, expGT]
     exact expandList_body cx sc l fuel hf
-  | .ifc e body tail, sc, fuel, hf => by
+  | .ifc e body tail, sc, fuel, hok, hsc, hf => by
+    simp only [GT.ok] at hok
     simp only [eneedGT] at hf
     obtain ⟨f, rfl⟩ : ∃ f, fuel = f + 3 := ⟨fuel - 3, by omega⟩
     simp only [GT.toTpls, expandList, expandTpl, expandBranches, expandList_nil, List.append_nil, expGT, hitOfS]
-    rw [expand_gts cx body sc f (by omega), expand_gtail cx tail sc f (by omega)]
+    rw [expand_gts cx hU body sc f hok.2.1 hsc (by omega), expand_gtail cx hU tail sc f hok.2.2 hsc (by omega)]
     by_cases hh : isTrue (evalText (specOf cx) sc e 34) = some true <;> simp [hh]
-  | .loop S V body, sc, fuel, hf => by
+  | .loop S V body, sc, fuel, hok, hsc, hf => by
+    simp only [GT.ok] at hok
     simp only [eneedGT] at hf
     obtain ⟨f, rfl⟩ : ∃ f, fuel = f + 2 := ⟨fuel - 2, by omega⟩
     simp only [GT.toTpls, expandList, expandTpl, expandList_nil, List.append_nil, expGT,
       show (specOf cx).root = cx.root from rfl]
     have hcoll : (if S.isEmpty = true then some cx.root else (resolve cx.root sc S).1) = collS cx sc S := rfl
     rw [hcoll]
-    have hb : ∀ x key g, eneedGTs cx (⟨V, x, key⟩ :: sc) body ≤ g →
+    have hb : ∀ x, Reach cx.root x → ∀ key g, eneedGTs cx (⟨V, x, key⟩ :: sc) body ≤ g →
         expandList (specOf cx) g (⟨V, x, key⟩ :: sc) (gtsTpl body) = expGTs cx (⟨V, x, key⟩ :: sc) body :=
-      fun x key g hg => expand_gts cx body (⟨V, x, key⟩ :: sc) g hg
+      fun x hx key g hg => expand_gts cx hU body (⟨V, x, key⟩ :: sc) g hok.2
+        (by
+          intro bd hbd
+          rcases List.mem_cons.mp hbd with h | h
+          · subst h; exact hx
+          · exact hsc bd h) hg
+    have hreach : ∀ d, collS cx sc S = some d → Reach cx.root d := by
+      intro d hd
+      simp only [collS] at hd
+      by_cases hS : S.isEmpty = true
+      · simp only [hS, if_true, Option.some.injEq] at hd; subst hd; exact Reach.root
+      · simp only [hS, Bool.false_eq_true, if_false] at hd; exact resolve_reach cx.root sc hsc S d hd
     cases hres : collS cx sc S with
     | none => simp [entsO, outEnts]
     | some d =>
       rw [hres] at hf
+      have hrd := hreach d hres
       cases d with
       | arr xs =>
         simp only [entsO, entsOf] at hf ⊢
-        exact loopArr_gen (specOf cx) sc V (gtsTpl body) _ _ hb xs f (by simp only [List.length_map] at hf; omega)
+        exact loopArr_gen (specOf cx) sc V (gtsTpl body) (fun x key => expGTs cx (⟨V, x, key⟩ :: sc) body)
+          (fun x key => eneedGTs cx (⟨V, x, key⟩ :: sc) body) xs f
+          (fun x hx => hb x (Reach.item xs x hrd hx)) (by simp only [List.length_map] at hf; omega)
       | obj ms =>
         simp only [entsO, entsOf] at hf ⊢
-        exact loopObj_gen (specOf cx) sc V (gtsTpl body) _ _ hb ms f (by omega)
+        exact loopObj_gen (specOf cx) sc V (gtsTpl body) (fun x key => expGTs cx (⟨V, x, key⟩ :: sc) body)
+          (fun x key => eneedGTs cx (⟨V, x, key⟩ :: sc) body) ms f
+          (fun kx hkx => hb kx.2 (Reach.mem ms kx.1 kx.2 hrd hkx)) (by omega)
       | _ => simp [entsO, entsOf, outEnts]
-  | .iif e ts fs, sc, fuel, hf => by
+  | .iif e ts fs, sc, fuel, hok, hsc, hf => by
     simp only [eneedGT] at hf
     obtain ⟨f, rfl⟩ : ∃ f, fuel = f + 2 := ⟨fuel - 2, by omega⟩
     simp only [GT.toTpls, expandList, expandTpl, expandList_nil, List.append_nil, expGT, expIif]
@@ -585,26 +643,38 @@ theorem expand_gt (cx : RCtx R) : ∀ (b : GT) (sc : List Binding) (fuel : Nat),
         cases fs with
         | none => rfl
         | some l => simp only [Option.map_some, expVal]; exact expandList_body cx sc l f (by simp at hf; omega)
-theorem expand_gts (cx : RCtx R) : ∀ (bs : GTs) (sc : List Binding) (fuel : Nat), eneedGTs cx sc bs ≤ fuel →
+  | .svar pa ar, sc, fuel, hok, hsc, hf => by
+    simp only [GT.ok] at hok
+    simp only [eneedGT] at hf
+    obtain ⟨f, rfl⟩ : ∃ f, fuel = f + 1 := ⟨fuel - 1, by omega⟩
+    simp only [GT.toTpls, expandList, expandList_nil, List.append_nil, expGT]
+    exact expandTpl_svar cx sc pa ar hok.2.2.2.2.2.2
+      (fun s hs => hU s (resolve_reach cx.root sc hsc pa _ hs)) f (by omega)
+theorem expand_gts (cx : RCtx R) (hU : ∀ s, Reach cx.root (.str s) → ∀ x ∈ s, x < 2 ^ 32) :
+    ∀ (bs : GTs) (sc : List Binding) (fuel : Nat), bs.ok → (∀ bd ∈ sc, Reach cx.root bd.item) → eneedGTs cx sc bs ≤ fuel →
     expandList (specOf cx) fuel sc (gtsTpl bs) = expGTs cx sc bs
-  | .nil, sc, fuel, _ => by simp [gtsTpl, expGTs, expandList_nil]
-  | .cons b r, sc, fuel, hf => by
+  | .nil, sc, fuel, _, _, _ => by simp [gtsTpl, expGTs, expandList_nil]
+  | .cons b r, sc, fuel, hok, hsc, hf => by
+    simp only [GTs.ok] at hok
     simp only [eneedGTs] at hf
     simp only [gtsTpl, expGTs]
-    rw [expandList_append, expand_gt cx b sc fuel (by omega), expand_gts cx r sc _ (by omega)]
-theorem expand_gtail (cx : RCtx R) : ∀ (t : GTail) (sc : List Binding) (fuel : Nat), eneedGTail cx sc t ≤ fuel →
+    rw [expandList_append, expand_gt cx hU b sc fuel hok.1 hsc (by omega), expand_gts cx hU r sc _ hok.2 hsc (by omega)]
+theorem expand_gtail (cx : RCtx R) (hU : ∀ s, Reach cx.root (.str s) → ∀ x ∈ s, x < 2 ^ 32) :
+    ∀ (t : GTail) (sc : List Binding) (fuel : Nat), t.ok → (∀ bd ∈ sc, Reach cx.root bd.item) → eneedGTail cx sc t ≤ fuel →
     expandBranches (specOf cx) fuel sc (tailBrG t) = expGTail cx sc t
-  | .fin, sc, fuel, _ => by simp [tailBrG, expGTail, expandBranches_nil]
-  | .els body, sc, fuel, hf => by
+  | .fin, sc, fuel, _, _, _ => by simp [tailBrG, expGTail, expandBranches_nil]
+  | .els body, sc, fuel, hok, hsc, hf => by
+    simp only [GTail.ok] at hok
     simp only [eneedGTail] at hf
     obtain ⟨f, rfl⟩ : ∃ f, fuel = f + 1 := ⟨fuel - 1, by omega⟩
     simp only [tailBrG, expandBranches, if_true, expGTail]
-    exact expand_gts cx body sc f (by omega)
-  | .elif e body tail, sc, fuel, hf => by
+    exact expand_gts cx hU body sc f hok hsc (by omega)
+  | .elif e body tail, sc, fuel, hok, hsc, hf => by
+    simp only [GTail.ok] at hok
     simp only [eneedGTail] at hf
     obtain ⟨f, rfl⟩ : ∃ f, fuel = f + 1 := ⟨fuel - 1, by omega⟩
     simp only [tailBrG, expandBranches, expGTail, hitOfS]
-    rw [expand_gts cx body sc f (by omega), expand_gtail cx tail sc f (by omega)]
+    rw [expand_gts cx hU body sc f hok.2.1 hsc (by omega), expand_gtail cx hU tail sc f hok.2.2 hsc (by omega)]
     by_cases hh : isTrue (evalText (specOf cx) sc e 34) = some true <;> simp [hh]
 end
 
